@@ -7,6 +7,7 @@ import (
 	"go/token"
 	"go/types"
 	"math/big"
+	"sort"
 	"strconv"
 	"strings"
 )
@@ -1062,12 +1063,17 @@ func (c *FuncCtx) alloc(st *State, t types.Type) string {
 	fr := "alloc0_" + structName(t)
 	c.declOnce(fr, "Int")
 	st.assume(app(">", r, fr))
+	var others []string
 	for _, v := range st.vars {
 		if v != nil && v.Sort == "Int" && v.T != nil {
 			if p, ok := under(v.T).(*types.Pointer); ok && types.Identical(p.Elem(), t) && v.S != r {
-				st.assume(mkNot(mkEq(r, v.S)))
+				others = append(others, v.S)
 			}
 		}
+	}
+	sort.Strings(others)
+	for _, o := range others {
+		st.assume(mkNot(mkEq(r, o)))
 	}
 	if prev, ok := st.bound["$alloc_"+structName(t)]; ok {
 		st.assume(app(">", r, prev.S))
